@@ -99,6 +99,7 @@ func (fc *FnCtx) findLoops() []*ssa.BasicBlock {
 type passInfo struct {
 	loopWrites map[*ssa.BasicBlock]map[string]bool
 	loopAll    map[*ssa.BasicBlock]bool
+	loopSpawn  map[*ssa.BasicBlock]bool // a goroutine started in one round is running in the next
 }
 
 func (fc *FnCtx) noteWrite(key string) {
@@ -111,6 +112,39 @@ func (fc *FnCtx) noteWrite(key string) {
 				fc.pass.loopWrites[h] = map[string]bool{}
 			}
 			fc.pass.loopWrites[h][key] = true
+		}
+	}
+}
+
+// noteSpawnInLoops: like noteHavocAll, for the loops whose head can be reached again from the current block (a goroutine
+// started on the way out of a loop is not running in any later round).
+func (fc *FnCtx) noteSpawnInLoops() {
+	if fc.pass == nil || fc.curBlock == nil {
+		return
+	}
+	for h, body := range fc.loopBody {
+		if !body[fc.curBlock] {
+			continue
+		}
+		seen := map[*ssa.BasicBlock]bool{}
+		var reach func(b *ssa.BasicBlock) bool
+		reach = func(b *ssa.BasicBlock) bool {
+			for _, s := range b.Succs {
+				if s == h {
+					return true
+				}
+				if body[s] && !seen[s] {
+					seen[s] = true
+					if reach(s) {
+						return true
+					}
+				}
+			}
+			return false
+		}
+		if reach(fc.curBlock) {
+			fc.pass.loopAll[h] = true
+			fc.pass.loopSpawn[h] = true
 		}
 	}
 }
@@ -131,7 +165,7 @@ func (e *Engine) verifyFunction(fn *ssa.Function, c *Contract) (fc *FnCtx, err e
 	// pass 1: discover what each loop writes
 	dry := e.newFnCtx(fn, c)
 	dry.dry = true
-	dry.pass = &passInfo{loopWrites: map[*ssa.BasicBlock]map[string]bool{}, loopAll: map[*ssa.BasicBlock]bool{}}
+	dry.pass = &passInfo{loopWrites: map[*ssa.BasicBlock]map[string]bool{}, loopAll: map[*ssa.BasicBlock]bool{}, loopSpawn: map[*ssa.BasicBlock]bool{}}
 	if err := dry.run(); err != nil {
 		return dry, err
 	}
@@ -450,6 +484,9 @@ func (fc *FnCtx) loopHeader(h *ssa.BasicBlock, phis []*ssa.Phi) {
 	fc.loopPre[h] = fc.cur.clone()
 	// names as they are on entry to the loop (the loop frame is stated over these)
 	entryNames := fc.phiNames(phis, func(p *ssa.Phi) V { return fc.vals[p] })
+	if fc.prev != nil && fc.prev.loopSpawn[h] {
+		fc.cur.spawned = true
+	}
 	// 2. havoc
 	for _, ph := range phis {
 		nv := fc.freshV(ph.Type(), "loop_"+ph.Name()+"_"+ph.Comment)
@@ -517,6 +554,14 @@ func (fc *FnCtx) loopHeader(h *ssa.BasicBlock, phis []*ssa.Phi) {
 			d := env.eval(ls.Decreases.E)
 			fc.loopDec[h] = fc.def("dec", fc.e.comps(d.Ty)[0].Sort, d.T[0])
 		}
+		// eachround: a fresh "seen" flag per item, false at the start of every round
+		for i := range ls.EachRound {
+			key := fmt.Sprintf("ghost:eachround:%d:%d", fc.loopOrd[h], i)
+			srt := fieldSort(sBool)
+			arr := fc.heapGet(fc.cur, key, srt)
+			fc.heapSet(fc.cur, key, srt, sx("store", arr, "0", "false"))
+			fc.noteWrite(key)
+		}
 	}
 }
 
@@ -565,6 +610,11 @@ func (fc *FnCtx) loopBackEdge(from, h *ssa.BasicBlock, cond string) {
 	}
 	for _, inv := range ls.Invariants {
 		fc.oblige(fmt.Sprintf("inv%d.preserve", ord), inv.Label, env.evalBool(inv.E), pos, fc.clauseProps(inv), inv.Text)
+	}
+	for i, er := range ls.EachRound {
+		key := fmt.Sprintf("ghost:eachround:%d:%d", ord, i)
+		arr := fc.heapGet(fc.cur, key, fieldSort(sBool))
+		fc.oblige(fmt.Sprintf("inv%d.eachround", ord), er.Cond.Label, sx("select", arr, "0"), pos, fc.clauseProps(er.Cond), "in every round some call to "+er.Callee+" satisfies: "+er.Cond.Text)
 	}
 	if ls.Decreases != nil {
 		d := env.eval(ls.Decreases.E)
@@ -879,6 +929,7 @@ func (fc *FnCtx) unop(x *ssa.UnOp) {
 		fc.vals[x] = V{Ty: x.Type(), T: []string{not(v.T[0])}}
 	case token.ARROW:
 		// channel receive: sequential fragment, the value is arbitrary; the ghost count of completed receives grows
+		fc.syncPoint()
 		fc.vals[x] = fc.freshWF(x.Type(), "recv", fc.cur)
 		fc.countRecv(v.T[0], "true")
 		fc.assumptions["channel receive yields an arbitrary value (sequential fragment)"] = true
@@ -1063,15 +1114,15 @@ func (fc *FnCtx) alloc(x *ssa.Alloc) {
 		fc.store(fc.cur, loc, fc.zero(el))
 	}
 	fc.vals[x] = v
-	if isPrivateCell(x) {
+	if fc.isPrivateCell(x) {
 		fc.privateCells = append(fc.privateCells, loc)
 	}
 }
 
 // isPrivateCell: a local variable that lives in a heap cell only because a closure of this function captures it,
-// where the closure is only deferred or called directly: no other code ever holds the cell's address, so a call to
-// unknown code cannot change it.
-func isPrivateCell(x *ssa.Alloc) bool {
+// where the closure is under contract and only deferred or called directly: no other code ever holds the cell's
+// address, so a call to unknown code cannot change it.
+func (fc *FnCtx) isPrivateCell(x *ssa.Alloc) bool {
 	if x.Referrers() == nil {
 		return false
 	}
@@ -1088,6 +1139,11 @@ func isPrivateCell(x *ssa.Alloc) bool {
 		case *ssa.DebugRef:
 		case *ssa.MakeClosure:
 			if u.Referrers() == nil {
+				return false
+			}
+			// the capturing closure itself may write the cell: only a closure under contract (whose frame says what it
+			// writes) leaves the cell private; without a contract its call havocs everything, this cell included
+			if cf, ok := u.Fn.(*ssa.Function); !ok || fc.e.specs.Contracts[fc.e.canon(cf)] == nil {
 				return false
 			}
 			for _, cr := range *u.Referrers() {
@@ -1420,7 +1476,30 @@ func (fc *FnCtx) mapUpdate(x *ssa.MapUpdate) {
 	mt := x.Map.Type()
 	fc.safe("nilmap", not(eq(m.T[0], "0")), x.Pos(), isKind[*ast.IndexExpr])
 	fc.assume(not(eq(m.T[0], "0")))
+	fc.frameCheckMap(mt, m, x.Pos())
 	fc.mapStore(fc.cur, mt, m, k, v)
+}
+
+// frameCheckMap: a write to (or a deletion from) map m is inside every active frame, and is a write of the enclosing loops.
+func (fc *FnCtx) frameCheckMap(mt types.Type, m V, pos token.Pos) {
+	dom, _, vals, _ := fc.mapKeys(mt)
+	fc.noteWrite(dom)
+	for _, k := range vals {
+		fc.noteWrite(k)
+	}
+	if fc.dry {
+		return
+	}
+	for _, fs := range fc.activeFrames() {
+		if fs.label == "" && fc.localRefs[m.T[0]] {
+			continue
+		}
+		goal := fc.frameGoalF(fs, dom, m.T[0], "")
+		if goal == "true" {
+			continue
+		}
+		fc.oblige("frame", fs.label+"store{"+fc.srcText(pos, isAssignLike)+"}", goal, pos, fc.cprops(), fs.text)
+	}
 }
 
 func (fc *FnCtx) mapStore(st *State, mt types.Type, m, k, v V) {
@@ -1471,7 +1550,20 @@ func (fc *FnCtx) goStmt(x *ssa.Go) {
 	fc.spawn(x.Common(), x.Pos())
 }
 
+// syncPoint: once this function has started a goroutine, what that goroutine writes may be visible after any later
+// synchronisation - a channel operation or a call (which may lock, wait, receive). Race freedom is assumed, so plain
+// reads in between still see this function's own view. Everything except what unknown code cannot change is forgotten.
+func (fc *FnCtx) syncPoint() {
+	if !fc.cur.spawned {
+		return
+	}
+	fc.havocAll(fc.cur)
+	fc.noteHavocAll()
+	fc.assumptions["after a go statement, the goroutine's writes become visible only at later channel operations and calls of the spawning function (race freedom)"] = true
+}
+
 func (fc *FnCtx) send(x *ssa.Send) {
+	fc.syncPoint()
 	ch := fc.val(x.Chan)
 	arr := fc.heapGet(fc.cur, "ghost:closed", fieldSort(sBool))
 	fc.safe("send", not(sx("select", arr, ch.T[0])), x.Pos(), func(n ast.Node) bool { _, ok := n.(*ast.SendStmt); return ok })
@@ -1479,6 +1571,7 @@ func (fc *FnCtx) send(x *ssa.Send) {
 }
 
 func (fc *FnCtx) selectInstr(x *ssa.Select) {
+	fc.syncPoint()
 	// nondeterministic choice among the cases
 	tup := x.Type().(*types.Tuple)
 	n := len(x.States)
@@ -1593,6 +1686,7 @@ func (fc *FnCtx) checkPosts(results []V, pos token.Pos, site string) {
 						srt := fieldSort(mt.sorts[k])
 						arr := fc.heapGet(fc.cur, key, srt)
 						fc.heapSet(fc.cur, key, srt, sx("store", arr, mt.ref, val.T[k]))
+						fc.noteWrite(key)
 					}
 				}
 			}
